@@ -27,11 +27,16 @@ pub struct Field {
     /// field: biased, in the operand's own number format), lookup index.
     pub selfv: i64,
     pub parentv: i64,
+    /// relational classes (FaultModel!RelClasses): the field is an element of an array (of scalars, or the
+    /// same member of consecutive records; or one of a tuple of like values such as minimum / default /
+    /// maximum); position in the buffer of the previous / next element, of the same width; -1 = none
+    pub prevo: i64,
+    pub nexto: i64,
 }
 
 impl Field {
     pub fn json(&self) -> Value {
-        json!([self.off, self.w, self.role, self.level, self.tbl, self.name, self.tstart, self.tlen, self.selfv, self.parentv])
+        json!([self.off, self.w, self.role, self.level, self.tbl, self.name, self.tstart, self.tlen, self.selfv, self.parentv, self.prevo, self.nexto])
     }
     pub fn from_json(v: &Value) -> Field {
         let role = v[2].as_str().unwrap();
@@ -47,6 +52,8 @@ impl Field {
             tlen: v[7].as_u64().unwrap() as usize,
             selfv: v.get(8).and_then(|x| x.as_i64()).unwrap_or(-1),
             parentv: v.get(9).and_then(|x| x.as_i64()).unwrap_or(-1),
+            prevo: v.get(10).and_then(|x| x.as_i64()).unwrap_or(-1),
+            nexto: v.get(11).and_then(|x| x.as_i64()).unwrap_or(-1),
         }
     }
 }
@@ -126,6 +133,8 @@ pub struct Walk<'a> {
     level: &'static str,
     /// fields are not recorded (a structure is parsed only for what it says about others)
     mute: bool,
+    /// index in `out` of the first field of the table being walked
+    tmark: usize,
 }
 
 /// Glyph ids the `outlines` entry point group visits for a font that declares `n` glyphs
@@ -146,19 +155,58 @@ fn tag_string(b: &[u8]) -> String {
 
 impl<'a> Walk<'a> {
     pub fn new(d: &'a [u8]) -> Walk<'a> {
-        Walk { d, out: Vec::new(), recs: Vec::new(), tbl: String::new(), tstart: 0, tlen: d.len(), level: "dir", mute: false }
+        Walk { d, out: Vec::new(), recs: Vec::new(), tbl: String::new(), tstart: 0, tlen: d.len(), level: "dir", mute: false, tmark: 0 }
     }
     fn enter(&mut self, tbl: &str, start: usize, len: usize, level: &'static str) {
         self.tbl = tbl.to_string();
         self.tstart = start;
         self.tlen = len.min(self.d.len().saturating_sub(start));
         self.level = level;
+        if level == "table" {
+            self.tmark = self.out.len();
+        }
+    }
+    /// The fields recorded since `from` that are member `moff` (width `w`) of one of the `count` records of
+    /// `stride` bytes starting at `base` (relative to the current table) are elements of one array: each
+    /// gets the position of the same member of the previous / next record.  An array of scalars has
+    /// stride = w and moff = 0.  A field keeps the first relation it was given.
+    fn sibs_from(&mut self, from: usize, base: usize, stride: usize, count: usize, moff: usize, w: u8) {
+        if stride == 0 || count < 2 {
+            return;
+        }
+        let (abs0, end) = (self.tstart + base + moff, self.tstart + self.tlen);
+        let from = from.min(self.out.len());
+        for f in self.out[from..].iter_mut() {
+            if f.w != w || f.off < abs0 || (f.off - abs0) % stride != 0 || f.prevo >= 0 || f.nexto >= 0 {
+                continue;
+            }
+            let k = (f.off - abs0) / stride;
+            if k >= count {
+                continue;
+            }
+            if k > 0 {
+                f.prevo = (f.off - stride) as i64;
+            }
+            if k + 1 < count && f.off + stride + w as usize <= end {
+                f.nexto = (f.off + stride) as i64;
+            }
+        }
+    }
+    /// `sibs_from` over the fields of the table being walked
+    fn sibs(&mut self, base: usize, stride: usize, count: usize, moff: usize, w: u8) {
+        self.sibs_from(self.tmark, base, stride, count, moff, w)
+    }
+    /// several members (offset in the record, width) of the same records
+    fn sibs_rec(&mut self, base: usize, stride: usize, count: usize, members: &[(usize, u8)]) {
+        for (moff, w) in members {
+            self.sibs(base, stride, count, *moff, *w);
+        }
     }
     /// field at `rel` (relative to the current table)
     fn f(&mut self, rel: usize, w: u8, role: &'static str, name: &str) {
         if rel + w as usize <= self.tlen {
             if !self.mute {
-                self.out.push(Field { off: self.tstart + rel, w, role, level: self.level, tbl: self.tbl.clone(), name: name.to_string(), tstart: self.tstart, tlen: self.tlen, selfv: -1, parentv: -1 });
+                self.out.push(Field { off: self.tstart + rel, w, role, level: self.level, tbl: self.tbl.clone(), name: name.to_string(), tstart: self.tstart, tlen: self.tlen, selfv: -1, parentv: -1, prevo: -1, nexto: -1 });
             }
         }
     }
@@ -253,6 +301,7 @@ impl<'a> Walk<'a> {
             None => return,
         };
         let mut tables = Vec::new();
+        let mark = self.out.len();
         for i in 0..n {
             let r = at + 12 + 16 * i;
             if r + 16 > flen {
@@ -268,6 +317,11 @@ impl<'a> Walk<'a> {
             self.recs.push(RecInfo { tag: tag.clone(), rec_off: r, rec_size: 16, off_field: r + 8, len_field: r + 12, count_field: at + 4, index: i, dir_start: at + 12, data_off: off, data_len: len });
             tables.push((tag, off, len));
         }
+        // the records are an array sorted by tag: tag, checksum, offset, length each with the same member of its neighbours
+        self.enter("sfnt", 0, flen, "dir");
+        for m in [0usize, 4, 8, 12] {
+            self.sibs_from(mark, at + 12, 16, n, m, 4);
+        }
         if walk_tables {
             self.tables(&tables, 0);
         }
@@ -279,12 +333,14 @@ impl<'a> Walk<'a> {
         self.fs(0, &[(4, "version", "ttcTag"), (2, "version", "majorVersion"), (2, "version", "minorVersion"), (4, "count", "numFonts")]);
         let n = self.u32(8).unwrap_or(0).min(16);
         let mut offs = Vec::new();
+        let mark = self.out.len();
         for i in 0..n {
             self.fr(12 + 4 * i, 4, "offset", "offsetTable", 0, -1);
             if let Some(o) = self.u32(12 + 4 * i) {
                 offs.push(o);
             }
         }
+        self.sibs_from(mark, 12, 4, n, 0, 4);
         for (i, o) in offs.into_iter().enumerate() {
             // tables are walked once, for the first member
             self.sfnt_in(o, i == 0, 0);
@@ -297,6 +353,7 @@ impl<'a> Walk<'a> {
         self.fs(0, &[(4, "version", "signature"), (4, "version", "flavor"), (4, "length", "length"), (2, "count", "numTables"), (2, "value", "reserved"), (4, "length", "totalSfntSize"), (2, "version", "majorVersion"), (2, "version", "minorVersion"), (4, "offset", "metaOffset"), (4, "length", "metaLength"), (4, "length", "metaOrigLength"), (4, "offset", "privOffset"), (4, "length", "privLength")]);
         let n = self.u16(12).unwrap_or(0);
         let mut plain = Vec::new();
+        let mark = self.out.len();
         for i in 0..n {
             let r = 44 + 20 * i;
             if r + 20 > flen {
@@ -324,6 +381,10 @@ impl<'a> Walk<'a> {
                     self.f(comp - 4, 4, "value", "zlib.adler");
                 }
             }
+        }
+        self.enter("wOFF", 0, flen, "dir");
+        for m in [0usize, 4, 8, 12, 16] {
+            self.sibs_from(mark, 44, 20, n, m, 4);
         }
         self.tables(&plain, 0);
     }
@@ -501,6 +562,12 @@ impl<'a> Walk<'a> {
                 }
                 "VORG" => {
                     self.fs(0, &[(2, "version", "majorVersion"), (2, "version", "minorVersion"), (2, "value", "defaultVertOriginY"), (2, "count", "numVertOriginYMetrics"), (2, "index", "rec0.glyphIndex"), (2, "value", "rec0.vertOriginY")]);
+                    let n = self.u16(6).unwrap_or(0);
+                    if n > 1 {
+                        self.fs(12, &[(2, "index", "rec1.glyphIndex"), (2, "value", "rec1.vertOriginY")]);
+                    }
+                    // sorted by glyph index
+                    self.sibs_rec(8, 4, n, &[(0, 2), (2, 2)]);
                 }
                 _ => {
                     // unknown table: first words
@@ -512,6 +579,9 @@ impl<'a> Walk<'a> {
 
     fn head(&mut self) {
         self.fs(0, &[(2, "version", "majorVersion"), (2, "version", "minorVersion"), (4, "value", "fontRevision"), (4, "value", "checkSumAdjustment"), (4, "version", "magicNumber"), (2, "value", "flags"), (2, "value", "unitsPerEm"), (8, "value", "created"), (8, "value", "modified"), (2, "value", "xMin"), (2, "value", "yMin"), (2, "value", "xMax"), (2, "value", "yMax"), (2, "value", "macStyle"), (2, "value", "lowestRecPPEM"), (2, "value", "fontDirectionHint"), (2, "version", "indexToLocFormat"), (2, "version", "glyphDataFormat")]);
+        // xMin / xMax and yMin / yMax: pairs of like values, the first not above the second
+        self.sibs(36, 4, 2, 0, 2);
+        self.sibs(38, 4, 2, 0, 2);
     }
     fn hhea(&mut self) {
         let p = self.fs(0, &[(2, "version", "majorVersion"), (2, "version", "minorVersion"), (2, "value", "ascender"), (2, "value", "descender"), (2, "value", "lineGap"), (2, "value", "advanceMax"), (2, "value", "minStartSideBearing"), (2, "value", "minEndSideBearing"), (2, "value", "maxExtent"), (2, "value", "caretSlopeRise"), (2, "value", "caretSlopeRun"), (2, "value", "caretOffset")]);
@@ -531,9 +601,11 @@ impl<'a> Walk<'a> {
                 self.f(4 * k + 2, 2, "value", &format!("metric[{}].sideBearing", nm));
             }
         }
+        self.sibs_rec(0, 4, nh, &[(0, 2), (2, 2)]);
         if ng > nh {
             self.f(4 * nh, 2, "value", "sideBearing[0]");
             self.f(4 * nh + 2 * (ng - nh - 1), 2, "value", "sideBearing[last]");
+            self.sibs(4 * nh, 2, ng - nh, 0, 2);
         }
     }
     fn loca(&mut self, long: bool, ng: usize) {
@@ -543,6 +615,7 @@ impl<'a> Walk<'a> {
                 self.f(w * k, w as u8, "offset", &format!("offset[{}]", nm));
             }
         }
+        self.sibs(0, w, ng + 1, 0, w as u8);
     }
     fn glyf(&mut self, lo: usize, ll: usize, long: bool, ng: usize) {
         let w = if long { 4 } else { 2 };
@@ -588,10 +661,16 @@ impl<'a> Walk<'a> {
             };
             let nm = format!("glyph[{}]", g);
             self.fs(a, &[(2, "count", &format!("{}.numberOfContours", nm)), (2, "value", &format!("{}.xMin", nm)), (2, "value", &format!("{}.yMin", nm)), (2, "value", &format!("{}.xMax", nm)), (2, "value", &format!("{}.yMax", nm))]);
+            self.sibs(a + 2, 4, 2, 0, 2);
+            self.sibs(a + 4, 4, 2, 0, 2);
             let nc = self.u16(a).unwrap_or(0);
             if nc < 0x8000 && nc > 0 {
                 self.f(a + 10, 2, "index", &format!("{}.endPts[0]", nm));
+                if nc > 2 {
+                    self.f(a + 12, 2, "index", &format!("{}.endPts[1]", nm));
+                }
                 self.f(a + 10 + 2 * (nc - 1), 2, "index", &format!("{}.endPts[last]", nm));
+                self.sibs(a + 10, 2, nc, 0, 2);
                 let il = a + 10 + 2 * nc;
                 self.f(il, 2, "length", &format!("{}.instructionLength", nm));
                 let ilen = self.u16(il).unwrap_or(0);
@@ -658,6 +737,7 @@ impl<'a> Walk<'a> {
                 subs.insert(o);
             }
         }
+        self.sibs_rec(4, 8, n, &[(0, 2), (2, 2), (4, 4)]);
         for o in subs {
             let fmt = match self.u16(o) {
                 Some(f) => f,
@@ -669,48 +749,105 @@ impl<'a> Walk<'a> {
                 0 => {
                     self.fs(o + 2, &[(2, "length", "f0.length"), (2, "value", "f0.language"), (1, "index", "f0.glyphId[0]"), (1, "index", "f0.glyphId[1]")]);
                     self.f(o + 6 + 65, 1, "index", "f0.glyphId[65]");
+                    self.sibs(o + 6, 1, 256, 0, 1);
                 }
                 2 => {
                     self.fs(o + 2, &[(2, "length", "f2.length"), (2, "value", "f2.language"), (2, "index", "f2.subHeaderKeys[0]")]);
                     self.f(o + 6 + 2 * 0x81, 2, "index", "f2.subHeaderKeys[0x81]");
                     self.fs(o + 6 + 512, &[(2, "value", "f2.sub0.firstCode"), (2, "count", "f2.sub0.entryCount"), (2, "value", "f2.sub0.idDelta"), (2, "offset", "f2.sub0.idRangeOffset"), (2, "value", "f2.sub1.firstCode"), (2, "count", "f2.sub1.entryCount"), (2, "value", "f2.sub1.idDelta"), (2, "offset", "f2.sub1.idRangeOffset")]);
+                    self.sibs(o + 6, 2, 256, 0, 2);
+                    self.sibs_rec(o + 6 + 512, 8, 2, &[(0, 2), (2, 2), (4, 2), (6, 2)]);
                 }
                 4 => {
                     self.fs(o + 2, &[(2, "length", "f4.length"), (2, "value", "f4.language"), (2, "count", "f4.segCountX2"), (2, "value", "f4.searchRange"), (2, "value", "f4.entrySelector"), (2, "value", "f4.rangeShift")]);
                     let sc = self.u16(o + 6).unwrap_or(0) / 2;
                     if sc > 0 {
                         let (e, s, dl, ro) = (o + 14, o + 16 + 2 * sc, o + 16 + 4 * sc, o + 16 + 6 * sc);
-                        for (k, kn) in [(0usize, "0"), (sc / 2, "mid"), (sc - 1, "last")] {
+                        for (k, kn) in [(0usize, "0"), (1, "1"), (sc / 2, "mid"), (sc.saturating_sub(2), "last-1"), (sc - 1, "last")] {
+                            if k >= sc {
+                                continue;
+                            }
                             self.f(e + 2 * k, 2, "value", &format!("f4.endCode[{}]", kn));
                             self.f(s + 2 * k, 2, "value", &format!("f4.startCode[{}]", kn));
                             self.f(dl + 2 * k, 2, "value", &format!("f4.idDelta[{}]", kn));
                             self.f(ro + 2 * k, 2, "offset", &format!("f4.idRangeOffset[{}]", kn));
                         }
+                        // four parallel arrays; the segments are sorted by end code
+                        for b in [e, s, dl, ro] {
+                            self.sibs(b, 2, sc, 0, 2);
+                        }
                         self.f(o + 14 + 2 * sc, 2, "value", "f4.reservedPad");
                         self.f(o + 16 + 8 * sc, 2, "index", "f4.glyphIdArray[0]");
+                        let ga = o + 16 + 8 * sc;
+                        let gn = self.u16(o + 2).map_or(0, |l| (o + l).saturating_sub(ga) / 2);
+                        if gn > 1 {
+                            self.f(ga + 2, 2, "index", "f4.glyphIdArray[1]");
+                        }
+                        self.sibs(ga, 2, gn, 0, 2);
                     }
                 }
                 6 => {
                     self.fs(o + 2, &[(2, "length", "f6.length"), (2, "value", "f6.language"), (2, "value", "f6.firstCode"), (2, "count", "f6.entryCount"), (2, "index", "f6.glyphId[0]")]);
+                    let c = self.u16(o + 8).unwrap_or(0);
+                    if c > 1 {
+                        self.f(o + 12, 2, "index", "f6.glyphId[1]");
+                    }
+                    self.sibs(o + 10, 2, c, 0, 2);
                 }
                 8 => {
                     self.fs(o + 2, &[(2, "value", "f8.reserved"), (4, "length", "f8.length"), (4, "value", "f8.language")]);
                     self.fs(o + 12 + 8192, &[(4, "count", "f8.numGroups"), (4, "value", "f8.group0.start"), (4, "value", "f8.group0.end"), (4, "index", "f8.group0.glyph")]);
+                    let c = self.u32(o + 12 + 8192).unwrap_or(0);
+                    if c > 1 {
+                        self.fs(o + 28 + 8192, &[(4, "value", "f8.group1.start"), (4, "value", "f8.group1.end"), (4, "index", "f8.group1.glyph")]);
+                    }
+                    self.sibs_rec(o + 16 + 8192, 12, c, &[(0, 4), (4, 4), (8, 4)]);
                 }
                 10 => {
                     self.fs(o + 2, &[(2, "value", "f10.reserved"), (4, "length", "f10.length"), (4, "value", "f10.language"), (4, "value", "f10.startCharCode"), (4, "count", "f10.numChars"), (2, "index", "f10.glyph[0]")]);
+                    let c = self.u32(o + 16).unwrap_or(0);
+                    if c > 1 {
+                        self.f(o + 22, 2, "index", "f10.glyph[1]");
+                    }
+                    self.sibs(o + 20, 2, c, 0, 2);
                 }
                 12 | 13 => {
                     self.fs(o + 2, &[(2, "value", "f12.reserved"), (4, "length", "f12.length"), (4, "value", "f12.language"), (4, "count", "f12.numGroups")]);
                     let ng = self.u32(o + 12).unwrap_or(0);
-                    for (k, kn) in [(0usize, "0"), (ng / 2, "mid"), (ng.saturating_sub(1), "last")] {
+                    for (k, kn) in [(0usize, "0"), (1, "1"), (ng / 2, "mid"), (ng.saturating_sub(1), "last")] {
                         if k < ng {
                             self.fs(o + 16 + 12 * k, &[(4, "value", &format!("f12.group[{}].start", kn)), (4, "value", &format!("f12.group[{}].end", kn)), (4, "index", &format!("f12.group[{}].glyph", kn))]);
                         }
                     }
+                    // groups sorted by start code: start, end, glyph each with the same member of the neighbours
+                    self.sibs_rec(o + 16, 12, ng, &[(0, 4), (4, 4), (8, 4)]);
                 }
                 14 => {
                     self.fs(o + 2, &[(4, "length", "f14.length"), (4, "count", "f14.numVarSelectorRecords"), (3, "value", "f14.rec0.varSelector"), (4, "offset", "f14.rec0.defaultUVSOffset"), (4, "offset", "f14.rec0.nonDefaultUVSOffset")]);
+                    let c = self.u32(o + 6).unwrap_or(0);
+                    if c > 1 {
+                        self.fs(o + 21, &[(3, "value", "f14.rec1.varSelector"), (4, "offset", "f14.rec1.defaultUVSOffset"), (4, "offset", "f14.rec1.nonDefaultUVSOffset")]);
+                    }
+                    self.sibs_rec(o + 10, 11, c, &[(0, 3), (3, 4), (7, 4)]);
+                    // the first default / non-default UVS table: ranges sorted by start value, mappings by unicode value
+                    if let Some(du) = self.u32(o + 13).filter(|v| *v != 0) {
+                        let t = o + du;
+                        self.fs(t, &[(4, "count", "f14.defaultUVS.numRanges"), (3, "value", "f14.defaultUVS.range0.start"), (1, "count", "f14.defaultUVS.range0.additionalCount")]);
+                        let c = self.u32(t).unwrap_or(0);
+                        if c > 1 {
+                            self.fs(t + 8, &[(3, "value", "f14.defaultUVS.range1.start"), (1, "count", "f14.defaultUVS.range1.additionalCount")]);
+                        }
+                        self.sibs_rec(t + 4, 4, c, &[(0, 3), (3, 1)]);
+                    }
+                    if let Some(nu) = self.u32(o + 17).filter(|v| *v != 0) {
+                        let t = o + nu;
+                        self.fs(t, &[(4, "count", "f14.nonDefaultUVS.numMappings"), (3, "value", "f14.nonDefaultUVS.map0.unicode"), (2, "index", "f14.nonDefaultUVS.map0.glyph")]);
+                        let c = self.u32(t).unwrap_or(0);
+                        if c > 1 {
+                            self.fs(t + 9, &[(3, "value", "f14.nonDefaultUVS.map1.unicode"), (2, "index", "f14.nonDefaultUVS.map1.glyph")]);
+                        }
+                        self.sibs_rec(t + 4, 5, c, &[(0, 3), (3, 2)]);
+                    }
                 }
                 _ => {}
             }
@@ -719,13 +856,19 @@ impl<'a> Walk<'a> {
     fn name(&mut self) {
         self.fs(0, &[(2, "version", "format"), (2, "count", "count"), (2, "offset", "stringOffset")]);
         let n = self.u16(2).unwrap_or(0);
-        for (k, kn) in [(0usize, "0"), (n / 2, "mid"), (n.saturating_sub(1), "last")] {
+        for (k, kn) in [(0usize, "0"), (1, "1"), (n / 2, "mid"), (n.saturating_sub(1), "last")] {
             if k < n {
                 self.fs(6 + 12 * k, &[(2, "value", &format!("rec[{}].platformID", kn)), (2, "value", &format!("rec[{}].encodingID", kn)), (2, "value", &format!("rec[{}].languageID", kn)), (2, "index", &format!("rec[{}].nameID", kn)), (2, "length", &format!("rec[{}].length", kn)), (2, "offset", &format!("rec[{}].offset", kn))]);
             }
         }
+        self.sibs_rec(6, 12, n, &[(0, 2), (2, 2), (4, 2), (6, 2), (8, 2), (10, 2)]);
         if self.u16(0) == Some(1) {
             self.fs(6 + 12 * n, &[(2, "count", "langTagCount"), (2, "length", "langTag0.length"), (2, "offset", "langTag0.offset")]);
+            let c = self.u16(6 + 12 * n).unwrap_or(0);
+            if c > 1 {
+                self.fs(12 + 12 * n, &[(2, "length", "langTag1.length"), (2, "offset", "langTag1.offset")]);
+            }
+            self.sibs_rec(8 + 12 * n, 4, c, &[(0, 2), (2, 2)]);
         }
     }
     fn post(&mut self) {
@@ -742,6 +885,7 @@ impl<'a> Walk<'a> {
                     self.f(34 + 2 * k, 2, "index", &format!("glyphNameIndex[{}]", kn));
                 }
             }
+            self.sibs(34, 2, n, 0, 2);
             let mut p = 34 + 2 * n;
             let mut k = 0;
             while let Some(l) = self.u8(p) {
@@ -774,11 +918,25 @@ impl<'a> Walk<'a> {
             let cov = self.u16(p + 4).unwrap_or(0);
             if cov >> 8 == 0 {
                 self.fs(p + 6, &[(2, "count", "f0.nPairs"), (2, "value", "f0.searchRange"), (2, "value", "f0.entrySelector"), (2, "value", "f0.rangeShift"), (2, "index", "f0.pair0.left"), (2, "index", "f0.pair0.right"), (2, "value", "f0.pair0.value")]);
+                let np = self.u16(p + 6).unwrap_or(0);
+                if np > 1 {
+                    self.fs(p + 20, &[(2, "index", "f0.pair1.left"), (2, "index", "f0.pair1.right"), (2, "value", "f0.pair1.value")]);
+                }
+                if np > 2 {
+                    self.fs(p + 14 + 6 * (np - 1), &[(2, "index", "f0.pairLast.left"), (2, "index", "f0.pairLast.right"), (2, "value", "f0.pairLast.value")]);
+                }
+                // pairs sorted by (left, right)
+                self.sibs_rec(p + 14, 6, np, &[(0, 2), (2, 2), (4, 2)]);
             } else if cov >> 8 == 2 {
                 self.fs(p + 6, &[(2, "length", "f2.rowWidth"), (2, "offset", "f2.leftClassOffset"), (2, "offset", "f2.rightClassOffset"), (2, "offset", "f2.kerningArrayOffset")]);
                 for (nm, at) in [("left", p + 8), ("right", p + 10)] {
                     if let Some(o) = self.u16(at) {
                         self.fs(p + o, &[(2, "index", &format!("f2.{}.firstGlyph", nm)), (2, "count", &format!("f2.{}.nGlyphs", nm)), (2, "offset", &format!("f2.{}.class[0]", nm))]);
+                        let c = self.u16(p + o + 2).unwrap_or(0);
+                        if c > 1 {
+                            self.f(p + o + 6, 2, "offset", &format!("f2.{}.class[1]", nm));
+                        }
+                        self.sibs(p + o + 4, 2, c, 0, 2);
                     }
                 }
             }
@@ -794,7 +952,10 @@ impl<'a> Walk<'a> {
         let (o, n, sz) = (self.u16(4).unwrap_or(16), self.u16(8).unwrap_or(0), self.u16(10).unwrap_or(20));
         for k in 0..n.min(8) {
             self.fs(o + sz * k, &[(4, "index", &format!("axis[{}].tag", k)), (4, "value", &format!("axis[{}].minValue", k)), (4, "value", &format!("axis[{}].defaultValue", k)), (4, "value", &format!("axis[{}].maxValue", k)), (2, "value", &format!("axis[{}].flags", k)), (2, "index", &format!("axis[{}].nameID", k))]);
+            // minimum <= default <= maximum: three like values in a row
+            self.sibs(o + sz * k + 4, 4, 3, 0, 4);
         }
+        self.sibs_rec(o, sz, n, &[(0, 4), (16, 2), (18, 2)]);
         let io = o + sz * n;
         let (ni, isz) = (self.u16(12).unwrap_or(0), self.u16(14).unwrap_or(0));
         for (k, kn) in [(0usize, "0"), (ni.saturating_sub(1), "last")] {
@@ -809,6 +970,14 @@ impl<'a> Walk<'a> {
                 }
             }
         }
+        // the same coordinate / name id of consecutive instances
+        self.sibs(io, isz, ni, 0, 2);
+        for a in 0..n.min(4) {
+            self.sibs(io, isz, ni, 4 + 4 * a, 4);
+        }
+        if isz >= 4 + 4 * n + 2 {
+            self.sibs(io, isz, ni, 4 + 4 * n, 2);
+        }
     }
     fn avar(&mut self) {
         self.fs(0, &[(2, "version", "majorVersion"), (2, "version", "minorVersion"), (2, "value", "reserved"), (2, "count", "axisCount")]);
@@ -820,11 +989,13 @@ impl<'a> Walk<'a> {
                 None => break,
             };
             self.f(p, 2, "count", &format!("seg[{}].positionMapCount", a));
-            for (k, kn) in [(0usize, "0"), (1, "1"), (c.saturating_sub(1), "last")] {
+            for (k, kn) in [(0usize, "0"), (1, "1"), (2, "2"), (c / 2, "mid"), (c.saturating_sub(2), "last-1"), (c.saturating_sub(1), "last")] {
                 if k < c {
                     self.fs(p + 2 + 4 * k, &[(2, "value", &format!("seg[{}].map[{}].from", a, kn)), (2, "value", &format!("seg[{}].map[{}].to", a, kn))]);
                 }
             }
+            // axis value maps sorted by fromCoordinate (and monotone in toCoordinate)
+            self.sibs_rec(p + 2, 4, c, &[(0, 2), (2, 2)]);
             p += 2 + 4 * c;
         }
     }
@@ -900,11 +1071,16 @@ impl<'a> Walk<'a> {
                 if axis_count > 1 {
                     self.f(q + 2 * (axis_count - 1), 2, "value", &format!("{}.hdr[{}].peakLast", nm, t));
                 }
+                if ti & 0x4000 != 0 {
+                    // peak, intermediate start, intermediate end of one axis: start <= peak <= end
+                    self.sibs(q, 2 * axis_count, 3, 0, 2);
+                }
                 q += 2 * axis_count;
             }
             if ti & 0x4000 != 0 {
                 self.f(q, 2, "value", &format!("{}.hdr[{}].start0", nm, t));
                 self.f(q + 2 * axis_count, 2, "value", &format!("{}.hdr[{}].end0", nm, t));
+                self.sibs(q, 2 * axis_count, 2, 0, 2);
                 q += 4 * axis_count;
             }
             sizes.push((size, ti & 0x2000 != 0));
@@ -930,7 +1106,7 @@ impl<'a> Walk<'a> {
         let n = self.u16(12).unwrap_or(0);
         let long = self.u16(14).unwrap_or(0) & 1 == 1;
         let w = if long { 4 } else { 2 };
-        for (k, kn) in [(0usize, "0"), (1, "1"), (2, "2"), (n / 2, "mid"), (n, "n")] {
+        for (k, kn) in [(0usize, "0"), (1, "1"), (2, "2"), (n / 2, "mid"), (n.saturating_sub(1), "n-1"), (n, "n")] {
             if k <= n {
                 self.f(20 + w * k, w as u8, "offset", &format!("offset[{}]", kn));
             }
@@ -975,6 +1151,15 @@ impl<'a> Walk<'a> {
                 self.tuple_store(p, p + 4, p, axes, &format!("gvd[{}]", g));
             }
         }
+        // glyph variation data offsets: non-decreasing; shared tuples: the same axis of consecutive tuples
+        self.sibs(20, w, n + 1, 0, w as u8);
+        if let Some(so) = self.u32(8) {
+            let nt = self.u16(6).unwrap_or(0);
+            self.sibs(so, 2 * axes, nt, 0, 2);
+            if axes > 1 {
+                self.sibs(so, 2 * axes, nt, 2 * (axes - 1), 2);
+            }
+        }
     }
     fn cvar(&mut self, axes: usize) {
         self.fs(0, &[(2, "version", "majorVersion"), (2, "version", "minorVersion")]);
@@ -993,6 +1178,8 @@ impl<'a> Walk<'a> {
                     for a in 0..ac.min(4) {
                         let p = o + r + 4 + 6 * (ac * k + a);
                         self.fs(p, &[(2, "value", &format!("{}.region[{}].axis{}.start", nm, kn, a)), (2, "value", &format!("{}.region[{}].axis{}.peak", nm, kn, a)), (2, "value", &format!("{}.region[{}].axis{}.end", nm, kn, a))]);
+                        // start <= peak <= end
+                        self.sibs(p, 2, 3, 0, 2);
                     }
                 }
             }
@@ -1008,9 +1195,12 @@ impl<'a> Walk<'a> {
             self.fs(dv, &[(2, "count", &format!("{}.itemCount", dn)), (2, "count", &format!("{}.wordDeltaCount", dn)), (2, "count", &format!("{}.regionIndexCount", dn))]);
             let (ic, wc, rc) = (self.u16(dv).unwrap_or(0), self.u16(dv + 2).unwrap_or(0), self.u16(dv + 4).unwrap_or(0));
             out.push(rc);
+            // itemCount / wordDeltaCount / regionIndexCount: three counts in a row
+            self.sibs(dv, 2, 3, 0, 2);
             for j in 0..rc.min(8) {
                 self.f(dv + 6 + 2 * j, 2, "index", &format!("{}.regionIndex[{}]", dn, j));
             }
+            self.sibs(dv + 6, 2, rc, 0, 2);
             let long = wc & 0x8000 != 0;
             let row = ((wc & 0x7fff) + rc) * if long { 2 } else { 1 };
             let rows = dv + 6 + 2 * rc;
@@ -1019,6 +1209,7 @@ impl<'a> Walk<'a> {
                 self.f(rows + row * ic - 1, 1, "value", &format!("{}.rowLast.byteLast", dn));
             }
         }
+        self.sibs(o + 8, 4, n, 0, 4);
         out
     }
     fn dsim(&mut self, o: usize, nm: &str) {
@@ -1036,12 +1227,14 @@ impl<'a> Walk<'a> {
                 self.f(o + 2 + cw as usize + es * k, es as u8, "index", &format!("{}.mapData[{}]", nm, kn));
             }
         }
+        self.sibs(o + 2 + cw as usize, es, n, 0, es as u8);
     }
     fn hvar(&mut self, vvar: bool) {
         self.fs(0, &[(2, "version", "majorVersion"), (2, "version", "minorVersion"), (4, "offset", "itemVariationStoreOffset"), (4, "offset", "advanceMappingOffset"), (4, "offset", if vvar { "tsbMappingOffset" } else { "lsbMappingOffset" }), (4, "offset", if vvar { "bsbMappingOffset" } else { "rsbMappingOffset" })]);
         if vvar {
             self.f(20, 4, "offset", "vOrgMappingOffset");
         }
+        self.sibs(4, 4, if vvar { 5 } else { 4 }, 0, 4);
         if let Some(o) = self.u32(4) {
             self.ivs(o, "ivs");
         }
@@ -1054,11 +1247,13 @@ impl<'a> Walk<'a> {
     fn mvar(&mut self) {
         self.fs(0, &[(2, "version", "majorVersion"), (2, "version", "minorVersion"), (2, "value", "reserved"), (2, "length", "valueRecordSize"), (2, "count", "valueRecordCount"), (2, "offset", "itemVariationStoreOffset")]);
         let (sz, n) = (self.u16(6).unwrap_or(8), self.u16(8).unwrap_or(0));
-        for (k, kn) in [(0usize, "0"), (n / 2, "mid"), (n.saturating_sub(1), "last")] {
+        for (k, kn) in [(0usize, "0"), (1, "1"), (n / 2, "mid"), (n.saturating_sub(1), "last")] {
             if k < n {
                 self.fs(12 + sz * k, &[(4, "index", &format!("rec[{}].valueTag", kn)), (2, "index", &format!("rec[{}].deltaSetOuterIndex", kn)), (2, "index", &format!("rec[{}].deltaSetInnerIndex", kn))]);
             }
         }
+        // value records sorted by tag (binary search)
+        self.sibs_rec(12, sz, n, &[(0, 4), (4, 2), (6, 2)]);
         if let Some(o) = self.u16(10) {
             self.ivs(o, "ivs");
         }
@@ -1070,6 +1265,7 @@ impl<'a> Walk<'a> {
             for k in 0..an.min(8) {
                 self.fs(o + asz * k, &[(4, "index", &format!("axis[{}].tag", k)), (2, "index", &format!("axis[{}].nameID", k)), (2, "value", &format!("axis[{}].ordering", k))]);
             }
+            self.sibs_rec(o, asz, an, &[(0, 4), (4, 2), (6, 2)]);
         }
         let vn = self.u16(12).unwrap_or(0);
         if let Some(o) = self.u32(14) {
@@ -1088,15 +1284,20 @@ impl<'a> Walk<'a> {
                     for j in 0..c.min(4) {
                         self.fs(p + 8 + 6 * j, &[(2, "index", &format!("{}.rec{}.axisIndex", nm, j)), (4, "value", &format!("{}.rec{}.value", nm, j))]);
                     }
+                    self.sibs_rec(p + 8, 6, c, &[(0, 2), (2, 4)]);
                 } else {
                     self.fs(p + 2, &[(2, "index", &format!("{}.axisIndex", nm)), (2, "value", &format!("{}.flags", nm)), (2, "index", &format!("{}.valueNameID", nm)), (4, "value", &format!("{}.value", nm))]);
                     if fmt == 2 {
                         self.fs(p + 12, &[(4, "value", &format!("{}.rangeMin", nm)), (4, "value", &format!("{}.rangeMax", nm))]);
+                        // nominal value, range minimum, range maximum
+                        self.sibs(p + 8, 4, 3, 0, 4);
                     } else if fmt == 3 {
                         self.f(p + 12, 4, "value", &format!("{}.linkedValue", nm));
+                        self.sibs(p + 8, 4, 2, 0, 4);
                     }
                 }
             }
+            self.sibs(o, 2, vn, 0, 2);
         }
     }
     /// SequenceLookupRecords of a (chained) sequence context sub-table at `sp` of lookup `li`:
@@ -1105,6 +1306,58 @@ impl<'a> Walk<'a> {
         for k in 0..n.min(4) {
             self.f(p + 4 * k, 2, "index", &format!("{}.rec{}.sequenceIndex", nm, k));
             self.fr(p + 4 * k + 2, 2, "index", &format!("{}.rec{}.lookupListIndex", nm, k), li as i64, -1);
+        }
+        self.sibs_rec(p, 4, n, &[(0, 2), (2, 2)]);
+    }
+    /// Coverage table at `o`: glyph ids (format 1) or range records (format 2), both sorted by glyph id
+    fn coverage(&mut self, o: usize, nm: &str) {
+        let fmt = self.u16(o).unwrap_or(0);
+        if o == 0 || !(1..=2).contains(&fmt) {
+            return;
+        }
+        self.fs(o, &[(2, "version", &format!("{}.format", nm)), (2, "count", &format!("{}.count", nm))]);
+        let n = self.u16(o + 2).unwrap_or(0);
+        for (k, kn) in [(0usize, "0"), (1, "1"), (n / 2, "mid"), (n.saturating_sub(1), "last")] {
+            if k >= n {
+                continue;
+            }
+            if fmt == 1 {
+                self.f(o + 4 + 2 * k, 2, "index", &format!("{}.glyph[{}]", nm, kn));
+            } else {
+                self.fs(o + 4 + 6 * k, &[(2, "index", &format!("{}.range[{}].start", nm, kn)), (2, "index", &format!("{}.range[{}].end", nm, kn)), (2, "value", &format!("{}.range[{}].startCoverageIndex", nm, kn))]);
+            }
+        }
+        if fmt == 1 {
+            self.sibs(o + 4, 2, n, 0, 2);
+        } else {
+            self.sibs_rec(o + 4, 6, n, &[(0, 2), (2, 2), (4, 2)]);
+        }
+    }
+    /// ClassDef table at `o`: class values of a glyph range (format 1) or class range records sorted by glyph id (format 2)
+    fn class_def(&mut self, o: usize, nm: &str) {
+        let fmt = self.u16(o).unwrap_or(0);
+        if o == 0 || !(1..=2).contains(&fmt) {
+            return;
+        }
+        self.f(o, 2, "version", &format!("{}.format", nm));
+        if fmt == 1 {
+            self.fs(o + 2, &[(2, "index", &format!("{}.startGlyph", nm)), (2, "count", &format!("{}.glyphCount", nm))]);
+            let n = self.u16(o + 4).unwrap_or(0);
+            for (k, kn) in [(0usize, "0"), (1, "1"), (n.saturating_sub(1), "last")] {
+                if k < n {
+                    self.f(o + 6 + 2 * k, 2, "value", &format!("{}.classValue[{}]", nm, kn));
+                }
+            }
+            self.sibs(o + 6, 2, n, 0, 2);
+        } else {
+            self.f(o + 2, 2, "count", &format!("{}.classRangeCount", nm));
+            let n = self.u16(o + 2).unwrap_or(0);
+            for (k, kn) in [(0usize, "0"), (1, "1"), (n / 2, "mid"), (n.saturating_sub(1), "last")] {
+                if k < n {
+                    self.fs(o + 4 + 6 * k, &[(2, "index", &format!("{}.range[{}].start", nm, kn)), (2, "index", &format!("{}.range[{}].end", nm, kn)), (2, "value", &format!("{}.range[{}].class", nm, kn))]);
+                }
+            }
+            self.sibs_rec(o + 4, 6, n, &[(0, 2), (2, 2), (4, 2)]);
         }
     }
     /// a rule of format 1 / 2 at `rp`
@@ -1131,10 +1384,16 @@ impl<'a> Walk<'a> {
         match fmt {
             1 | 2 => {
                 self.f(sp + 2, 2, "offset", &format!("{}.coverageOffset", nm));
+                if let Some(co) = self.u16(sp + 2) {
+                    self.coverage(sp + co, &format!("{}.coverage", nm));
+                }
                 let mut p = sp + 4;
                 if fmt == 2 {
                     for c in 0..(if chain { 3 } else { 1 }) {
                         self.f(p, 2, "offset", &format!("{}.classDefOffset{}", nm, c));
+                        if let Some(co) = self.u16(p).filter(|v| *v != 0 && c < 2) {
+                            self.class_def(sp + co, &format!("{}.classDef{}", nm, c));
+                        }
                         p += 2;
                     }
                 }
@@ -1157,6 +1416,7 @@ impl<'a> Walk<'a> {
                         break;
                     }
                 }
+                self.sibs(p + 2, 2, n, 0, 2);
             }
             3 => {
                 let mut p = sp + 2;
@@ -1231,17 +1491,43 @@ impl<'a> Walk<'a> {
         }
         if let Some(s) = self.u16(4) {
             self.fs(s, &[(2, "count", "scriptCount"), (4, "index", "script0.tag"), (2, "offset", "script0.offset")]);
+            let sc = self.u16(s).unwrap_or(0);
+            if sc > 1 {
+                self.fs(s + 8, &[(4, "index", "script1.tag"), (2, "offset", "script1.offset")]);
+            }
+            // script records sorted by tag
+            self.sibs_rec(s + 2, 6, sc, &[(0, 4), (4, 2)]);
             if let Some(so) = self.u16(s + 6) {
                 self.fs(s + so, &[(2, "offset", "script0.defaultLangSys"), (2, "count", "script0.langSysCount")]);
+                let lc = self.u16(s + so + 2).unwrap_or(0);
+                for k in 0..lc.min(2) {
+                    self.fs(s + so + 4 + 6 * k, &[(4, "index", &format!("script0.langSys{}.tag", k)), (2, "offset", &format!("script0.langSys{}.offset", k))]);
+                }
+                self.sibs_rec(s + so + 4, 6, lc, &[(0, 4), (4, 2)]);
                 if let Some(dl) = self.u16(s + so) {
                     self.fs(s + so + dl, &[(2, "offset", "langSys.lookupOrder"), (2, "index", "langSys.requiredFeatureIndex"), (2, "count", "langSys.featureIndexCount"), (2, "index", "langSys.featureIndex[0]")]);
+                    let fc = self.u16(s + so + dl + 4).unwrap_or(0);
+                    if fc > 1 {
+                        self.f(s + so + dl + 8, 2, "index", "langSys.featureIndex[1]");
+                    }
+                    self.sibs(s + so + dl + 6, 2, fc, 0, 2);
                 }
             }
         }
         if let Some(fo) = self.u16(6) {
             self.fs(fo, &[(2, "count", "featureCount"), (4, "index", "feature0.tag"), (2, "offset", "feature0.offset")]);
+            let fc = self.u16(fo).unwrap_or(0);
+            if fc > 1 {
+                self.fs(fo + 8, &[(4, "index", "feature1.tag"), (2, "offset", "feature1.offset")]);
+            }
+            self.sibs_rec(fo + 2, 6, fc, &[(0, 4), (4, 2)]);
             if let Some(f0) = self.u16(fo + 6) {
                 self.fs(fo + f0, &[(2, "offset", "feature0.params"), (2, "count", "feature0.lookupIndexCount"), (2, "index", "feature0.lookupListIndex[0]")]);
+                let lc = self.u16(fo + f0 + 2).unwrap_or(0);
+                if lc > 1 {
+                    self.f(fo + f0 + 6, 2, "index", "feature0.lookupListIndex[1]");
+                }
+                self.sibs(fo + f0 + 4, 2, lc, 0, 2);
             }
         }
         if let Some(lo) = self.u16(8) {
@@ -1249,7 +1535,7 @@ impl<'a> Walk<'a> {
             self.ctx_lookups(lo, gpos);
             self.f(lo, 2, "count", "lookupCount");
             let n = self.u16(lo).unwrap_or(0);
-            for (k, kn) in [(0usize, "0"), (n / 2, "mid"), (n.saturating_sub(1), "last")] {
+            for (k, kn) in [(0usize, "0"), (1, "1"), (n / 2, "mid"), (n.saturating_sub(1), "last")] {
                 if k >= n {
                     continue;
                 }
@@ -1259,9 +1545,27 @@ impl<'a> Walk<'a> {
                     self.fs(lp, &[(2, "version", &format!("lookup[{}].type", kn)), (2, "value", &format!("lookup[{}].flag", kn)), (2, "count", &format!("lookup[{}].subTableCount", kn)), (2, "offset", &format!("lookup[{}].subTableOffset[0]", kn))]);
                     if let Some(st) = self.u16(lp + 6) {
                         self.fs(lp + st, &[(2, "version", &format!("lookup[{}].sub0.format", kn)), (2, "offset", &format!("lookup[{}].sub0.word1", kn)), (2, "value", &format!("lookup[{}].sub0.word2", kn)), (2, "count", &format!("lookup[{}].sub0.word3", kn))]);
+                        // the second word of a sub-table is its coverage offset, except in an extension sub-table
+                        // and in the format 3 context sub-tables
+                        let ty = self.u16(lp).unwrap_or(0);
+                        let sf = self.u16(lp + st).unwrap_or(0);
+                        let ext = if gpos { 9 } else { 7 };
+                        let ctx3 = sf == 3 && (if gpos { ty == 7 || ty == 8 } else { ty == 5 || ty == 6 });
+                        if ty != ext && !ctx3 {
+                            if let Some(co) = self.u16(lp + st + 2).filter(|v| *v != 0) {
+                                self.coverage(lp + st + co, &format!("lookup[{}].sub0.coverage", kn));
+                            }
+                        }
                     }
+                    // the sub-table offsets of the lookup
+                    let stc = self.u16(lp + 4).unwrap_or(0);
+                    if stc > 1 {
+                        self.f(lp + 8, 2, "offset", &format!("lookup[{}].subTableOffset[1]", kn));
+                    }
+                    self.sibs(lp + 6, 2, stc, 0, 2);
                 }
             }
+            self.sibs(lo + 2, 2, n, 0, 2);
         }
     }
     fn gdef(&mut self) {
@@ -1283,6 +1587,37 @@ impl<'a> Walk<'a> {
         if let Some(c) = self.u16(4) {
             if c != 0 {
                 self.fs(c, &[(2, "version", "classDef.format"), (2, "index", "classDef.word1"), (2, "count", "classDef.word2"), (2, "value", "classDef.word3")]);
+                self.class_def(c, "classDef");
+            }
+        }
+        if let Some(c) = self.u16(10).filter(|v| *v != 0) {
+            self.class_def(c, "markAttachClassDef");
+        }
+        // AttachList / LigCaretList: coverage offset, count, offsets of the per-glyph tables
+        for (at, nm) in [(6usize, "attachList"), (8, "ligCaretList")] {
+            if let Some(l) = self.u16(at).filter(|v| *v != 0) {
+                self.fs(l, &[(2, "offset", &format!("{}.coverageOffset", nm)), (2, "count", &format!("{}.count", nm)), (2, "offset", &format!("{}.offset[0]", nm))]);
+                let n = self.u16(l + 2).unwrap_or(0);
+                if n > 1 {
+                    self.f(l + 6, 2, "offset", &format!("{}.offset[1]", nm));
+                }
+                self.sibs(l + 4, 2, n, 0, 2);
+                if let Some(co) = self.u16(l) {
+                    self.coverage(l + co, &format!("{}.coverage", nm));
+                }
+            }
+        }
+        if minor >= 2 {
+            if let Some(m) = self.u16(12).filter(|v| *v != 0) {
+                self.fs(m, &[(2, "version", "markGlyphSets.format"), (2, "count", "markGlyphSets.count"), (4, "offset", "markGlyphSets.coverageOffset[0]")]);
+                let n = self.u16(m + 2).unwrap_or(0);
+                if n > 1 {
+                    self.f(m + 8, 4, "offset", "markGlyphSets.coverageOffset[1]");
+                }
+                self.sibs(m + 4, 4, n, 0, 4);
+                if let Some(co) = self.u32(m + 4) {
+                    self.coverage(m + co, "markGlyphSets.coverage0");
+                }
             }
         }
     }
@@ -1302,11 +1637,13 @@ impl<'a> Walk<'a> {
             return None;
         }
         let oa = p + hdr + 1;
-        for (k, kn) in [(0usize, "0"), (1, "1"), (count / 2, "mid"), (count, "n")] {
+        for (k, kn) in [(0usize, "0"), (1, "1"), (count / 2, "mid"), (count.saturating_sub(1), "n-1"), (count, "n")] {
             if k <= count {
                 self.f(oa + os * k, os as u8, "offset", &format!("{}.offset[{}]", nm, kn));
             }
         }
+        // offsets of an INDEX: non-decreasing, the first is 1
+        self.sibs(oa, os, count + 1, 0, os as u8);
         let data = oa + os * (count + 1);
         let last = self.un(oa + os * count, os)?;
         Some((count, os, data, data + last.saturating_sub(1)))
@@ -1648,12 +1985,26 @@ impl<'a> Walk<'a> {
                     self.f(c, 1, "version", "charset.format");
                     if fmt == 0 {
                         self.f(c + 1, 2, "index", "charset.sid[1]");
+                        if n_glyphs > 2 {
+                            self.f(c + 3, 2, "index", "charset.sid[2]");
+                        }
                         self.f(c + 1 + 2 * n_glyphs.saturating_sub(2), 2, "index", "charset.sid[last]");
+                        self.sibs(c + 1, 2, n_glyphs.saturating_sub(1), 0, 2);
                     } else {
                         let lw = if fmt == 1 { 1 } else { 2 };
-                        for k in 0..3 {
+                        // the ranges cover glyphs 1 .. n-1
+                        let (mut nr, mut covered) = (0usize, 1usize);
+                        while covered < n_glyphs && nr < 65536 {
+                            match self.un(c + 1 + (2 + lw) * nr + 2, lw) {
+                                Some(l) => covered += l + 1,
+                                None => break,
+                            }
+                            nr += 1;
+                        }
+                        for k in 0..nr.min(3) {
                             self.fs(c + 1 + (2 + lw) * k, &[(2, "index", &format!("charset.range{}.first", k)), (lw as u8, "count", &format!("charset.range{}.nLeft", k))]);
                         }
+                        self.sibs_rec(c + 1, 2 + lw, nr, &[(0, 2), (2, lw as u8)]);
                     }
                 }
             }
@@ -1701,6 +2052,7 @@ impl<'a> Walk<'a> {
                     self.f(fs + 1, 1, "index", "fdSelect.fd[0]");
                     self.f(fs + 1 + n_glyphs / 2, 1, "index", "fdSelect.fd[mid]");
                     self.f(fs + n_glyphs, 1, "index", "fdSelect.fd[last]");
+                    self.sibs(fs + 1, 1, n_glyphs, 0, 1);
                 } else if fmt == 3 {
                     self.f(fs + 1, 2, "count", "fdSelect.nRanges");
                     let nr = self.u16(fs + 1).unwrap_or(0);
@@ -1708,6 +2060,9 @@ impl<'a> Walk<'a> {
                         self.fs(fs + 3 + 3 * k, &[(2, "index", &format!("fdSelect.range{}.first", k)), (1, "index", &format!("fdSelect.range{}.fd", k))]);
                     }
                     self.f(fs + 3 + 3 * nr, 2, "index", "fdSelect.sentinel");
+                    // ranges sorted by first glyph, closed by the sentinel
+                    self.sibs(fs + 3, 3, nr + 1, 0, 2);
+                    self.sibs(fs + 3, 3, nr, 2, 1);
                 } else {
                     self.f(fs + 1, 4, "count", "fdSelect.nRanges");
                     let nr = self.u32(fs + 1).unwrap_or(0);
@@ -1715,6 +2070,8 @@ impl<'a> Walk<'a> {
                         self.fs(fs + 5 + 6 * k, &[(4, "index", &format!("fdSelect.range{}.first", k)), (2, "index", &format!("fdSelect.range{}.fd", k))]);
                     }
                     self.f(fs + 5 + 6 * nr, 4, "index", "fdSelect.sentinel");
+                    self.sibs(fs + 5, 6, nr + 1, 0, 4);
+                    self.sibs(fs + 5, 6, nr, 4, 2);
                 }
             }
         }
@@ -1856,13 +2213,15 @@ impl<'a> Walk<'a> {
         if let Some(o) = self.u32(2) {
             self.f(o, 2, "count", "numEntries");
             let n = self.u16(o).unwrap_or(0);
-            for (k, kn) in [(0usize, "0"), (n.saturating_sub(1), "last")] {
+            for (k, kn) in [(0usize, "0"), (1, "1"), (n.saturating_sub(1), "last")] {
                 if k < n {
                     self.fs(o + 2 + 12 * k, &[(2, "index", &format!("doc[{}].startGlyphID", kn)), (2, "index", &format!("doc[{}].endGlyphID", kn)), (4, "offset", &format!("doc[{}].svgDocOffset", kn)), (4, "length", &format!("doc[{}].svgDocLength", kn))]);
                     // counted from the document list: self = the record itself read as a document, parent = the list
                     self.refs(o + 2 + 12 * k + 4, (2 + 12 * k) as i64, 0);
                 }
             }
+            // document records sorted by start glyph id
+            self.sibs_rec(o + 2, 12, n, &[(0, 2), (2, 2), (4, 4), (8, 4)]);
             if let Some(d0) = self.u32(o + 6) {
                 self.fs(o + d0, &[(1, "version", "doc0.byte0"), (1, "version", "doc0.byte1"), (1, "version", "doc0.byte2")]);
             }
@@ -1879,11 +2238,31 @@ impl<'a> Walk<'a> {
             self.refs(b, b as i64, 0);
             self.fs(b + 16, &[(1, "value", &format!("{}.hori.ascender", nm)), (1, "value", &format!("{}.hori.descender", nm)), (1, "value", &format!("{}.hori.widthMax", nm))]);
             self.fs(b + 40, &[(2, "index", &format!("{}.startGlyphIndex", nm)), (2, "index", &format!("{}.endGlyphIndex", nm)), (1, "value", &format!("{}.ppemX", nm)), (1, "value", &format!("{}.ppemY", nm)), (1, "version", &format!("{}.bitDepth", nm)), (1, "value", &format!("{}.flags", nm))]);
+            self.sibs(b + 40, 2, 2, 0, 2);
             if let Some(a) = self.u32(b) {
                 self.fs(a, &[(2, "index", &format!("{}.sub0.firstGlyphIndex", nm)), (2, "index", &format!("{}.sub0.lastGlyphIndex", nm)), (4, "offset", &format!("{}.sub0.additionalOffset", nm))]);
+                let ns = self.u32(b + 8).unwrap_or(0);
+                if ns > 1 {
+                    self.fs(a + 8, &[(2, "index", &format!("{}.sub1.firstGlyphIndex", nm)), (2, "index", &format!("{}.sub1.lastGlyphIndex", nm)), (4, "offset", &format!("{}.sub1.additionalOffset", nm))]);
+                }
+                // index sub-table array: sorted by glyph range
+                self.sibs_rec(a, 8, ns, &[(0, 2), (2, 2), (4, 4)]);
                 if let Some(add) = self.u32(a + 4) {
                     let h = a + add;
                     self.fs(h, &[(2, "version", &format!("{}.sub0.indexFormat", nm)), (2, "version", &format!("{}.sub0.imageFormat", nm)), (4, "offset", &format!("{}.sub0.imageDataOffset", nm)), (4, "offset", &format!("{}.sub0.word0", nm)), (4, "offset", &format!("{}.sub0.word1", nm))]);
+                    // format 1 / 3: one offset per glyph of the range and one more, non-decreasing
+                    let span = match (self.u16(a), self.u16(a + 2)) {
+                        (Some(f), Some(l)) if l >= f => l - f + 2,
+                        _ => 0,
+                    };
+                    match self.u16(h) {
+                        Some(1) => self.sibs(h + 8, 4, span, 0, 4),
+                        Some(3) => {
+                            self.fs(h + 8, &[(2, "offset", &format!("{}.sub0.offset16[0]", nm)), (2, "offset", &format!("{}.sub0.offset16[1]", nm))]);
+                            self.sibs(h + 8, 2, span, 0, 2)
+                        }
+                        _ => {}
+                    }
                 }
             }
         }
@@ -1893,13 +2272,15 @@ impl<'a> Walk<'a> {
         let n = self.u32(4).unwrap_or(0);
         for k in 0..n.min(2) {
             self.f(8 + 4 * k, 4, "offset", &format!("strikeOffset[{}]", k));
+            self.sibs(8, 4, n, 0, 4);
             if let Some(s) = self.u32(8 + 4 * k) {
                 self.fs(s, &[(2, "value", &format!("strike[{}].ppem", k)), (2, "value", &format!("strike[{}].ppi", k))]);
-                for (g, gn) in [(0usize, "0"), (1, "1"), (2, "2"), (ng, "n")] {
+                for (g, gn) in [(0usize, "0"), (1, "1"), (2, "2"), (ng.saturating_sub(1), "n-1"), (ng, "n")] {
                     if g <= ng {
                         self.f(s + 4 + 4 * g, 4, "offset", &format!("strike[{}].glyphDataOffset[{}]", k, gn));
                     }
                 }
+                self.sibs(s + 4, 4, ng + 1, 0, 4);
                 for g in 0..ng.min(4) {
                     if let (Some(a), Some(b)) = (self.u32(s + 4 + 4 * g), self.u32(s + 8 + 4 * g)) {
                         if b > a {
